@@ -47,13 +47,33 @@ def _decode(out, trailing):
     return ids.astype(np.int64).tolist()
 
 
+FRAC = 2.0 ** -30     # exact in float64, lost in float32: stored values carry it when the store is float64
+
+
+def _frac_ok(out, case):
+    """with a float64 store every stored (non-zero, non-NaN) value comes back bit-exact"""
+    if not case['spec'].get('feature_frac'):
+        return True
+    v = np.asarray(out, dtype=np.float64).ravel()
+    v = v[np.isfinite(v) & (v != 0)]
+    return bool(np.all(v - np.floor(v) == FRAC))
+
+
+def _chans(case):
+    """the requested channels as a list or as an array of the given integer dtype"""
+    k = case.get('chkind', 'list')
+    if k == 'list':
+        return list(case['chans'])
+    return np.array(case['chans'], dtype='int64' if k == 'array' else k)
+
+
 def impl(case):
     from phylib.io.model import from_sparse
     op = case['op']
     if op == 'from_sparse':
         data = _data(case['nr'], case['nloc'], case['trailing'], case.get('dtype', 'float64'))
         cols = np.array(case['cols'], dtype=np.int64).reshape((case['nr'], case['nloc'])).astype(case.get('cdtype', 'int64'))
-        chans = np.array(case['chans'], dtype=np.int64) if case.get('chkind') == 'array' else list(case['chans'])
+        chans = _chans(case)
         keep = (data.copy(), cols.copy(), list(chans))
         out = from_sparse(data, cols, chans)
         res = dict(ids=_decode(out, case['trailing']), shape=list(out.shape), dtype=str(out.dtype))
@@ -66,15 +86,17 @@ def impl(case):
     with C.scratch_dir() as d:
         m = D.load(D.write_dataset(d, case['spec']))
         try:
-            sid = np.array(case['spike_ids'], dtype=np.int64)
+            sk = case.get('sidkind', 'int64')       # how the caller hands over the requested spike ids
+            sid = list(case['spike_ids']) if sk == 'list' else np.array(case['spike_ids'], dtype=sk)
             if op == 'features':
-                out = m.get_features(sid, np.array(case['chans'], dtype=np.int64) if case.get('chkind') == 'array' else list(case['chans']))
+                out = m.get_features(sid, _chans(case))
                 res = dict(ids=_decode(out, 1 if case['npcs_pow2'] else 0) if out.ndim == 3 else None, shape=list(out.shape))
                 if out.ndim == 3 and not case['npcs_pow2']:
                     res['ids'] = _decode(out[..., 0], 0)
+                res['frac_ok'] = _frac_ok(out, case)
             elif op == 'tfeatures':
                 out = m.get_template_features(sid)
-                res = dict(ids=_decode(out, 0), shape=list(out.shape))
+                res = dict(ids=_decode(out, 0), shape=list(out.shape), frac_ok=_frac_ok(out, case))
             elif op == 'pca':
                 from phylib.io.model import compute_features, _compute_pcs
                 m.save_spikes_subset_waveforms(max_n_spikes_per_template=case['nst'], max_n_channels=case['nc'])
@@ -214,6 +236,8 @@ def judge(case, impl_res, ans):
                 return 'MACHINERY: Lean model differs from the python oracle on a stored spike'
             if g != e:
                 return 'SPEC: row %d (spike %d) differs from the densified stored row' % (i, case['spike_ids'][i])
+    if ok.get('frac_ok') is False:
+        return 'SPEC: a float64 store does not come back bit-exact (stored values were rounded)'
     if got != m:
         return 'CORR: rows of unstored spikes differ from the model'
     return None
@@ -234,6 +258,9 @@ def tally(rep, case, impl_res, ans):
         nr, nloc, ind, rows = _store(case)
         rep.count('row_table:%s' % (rows is not None))
         rep.count('col_table:%s' % (ind is not None))
+        rep.count('spike_ids_as:%s' % case.get('sidkind', 'int64'))
+        rep.count('channels_as:%s' % case.get('chkind', 'list'))
+        rep.count('store_dtype:%s' % ('float64 (values need double precision)' if case['spec'].get('feature_frac') else 'float32'))
         if case['spike_ids'] != sorted(case['spike_ids']):
             rep.count('unsorted_request')
         if rows is not None and set(case['spike_ids']) - set(rows):
@@ -292,7 +319,7 @@ def gen(tier, rng):
                     cdt = ['int64', 'int32', 'uint32'][k % 3]
                     cc = [[c if c >= 0 or cdt != 'uint32' else 2 ** 32 - 1 for c in row] for row in cols]
                     yield dict(p=PID, op='from_sparse', nr=nr, nloc=nloc, cols=cc, chans=chans, trailing=(k + ri) % 3,
-                               cdtype=cdt, dtype=['float64', 'float32'][k % 2], chkind=['list', 'array'][ri % 2])
+                               cdtype=cdt, dtype=['float64', 'float32'][k % 2], chkind=['list', 'array', 'uint32', 'int32', 'uint16'][(k + ri) % 5])
     # model level (every stored dimension >= 2: a stored dimension of size 1 is squeezed away by the
     # loader and is out of scope, DESIGN.md C04)
     for i in range(250 if q else 5000):
@@ -307,6 +334,7 @@ def gen(tier, rng):
             if rng.random() < .3:
                 rng.shuffle(keep)
             spec['pc_feature_spike_ids'] = keep
+            spec['dtypes'] = dict(spec.get('dtypes') or {}, pc_feature_spike_ids=rng.pick(['int64', 'int64', 'uint64', 'int32', 'uint32']))
             nsf = len(keep)
         spec['pc_features'] = [[[float((r * nloc + kk + 1) * SCALE + p) for kk in range(nloc)] for p in range(npcs)] for r in range(nsf)]
         if not dense:
@@ -322,15 +350,23 @@ def gen(tier, rng):
         if rng.random() < .5:
             keep = sorted(rng.sample(range(ns), rng.randrange(2, ns + 1)))
             spec['template_feature_spike_ids'] = keep
+            spec['dtypes'] = dict(spec.get('dtypes') or {}, template_feature_spike_ids=rng.pick(['int64', 'uint64', 'int32']))
             nst = len(keep)
         spec['template_features'] = [[float(r * tl + kk + 1) for kk in range(tl)] for r in range(nst)]
         if rng.random() < .8 or tl != nt:
             spec['template_feature_ind'] = [rng.sample(range(nt), tl) for _ in range(nt)]
+        if i % 3 == 1:
+            # float64 stores whose values need double precision
+            spec['feature_frac'] = True
+            spec['dtypes'] = dict(spec.get('dtypes') or {}, pc_features='float64', template_features='float64')
+            spec['pc_features'] = [[[v + FRAC for v in row] for row in blk] for blk in spec['pc_features']]
+            spec['template_features'] = [[v + FRAC for v in row] for row in spec['template_features']]
         sids = rng.sample(range(ns), rng.randrange(0 if i % 9 == 0 else 1, min(ns, 6) + 1))
         yield dict(p=PID, op='features', spec=spec, spike_ids=sids, npcs_pow2=True,
-                   chans=rng.sample(range(nc), rng.randrange(1, nc + 1)), chkind=rng.pick(['list', 'array']))
+                   chans=rng.sample(range(nc), rng.randrange(1, nc + 1)), chkind=rng.pick(['list', 'array', 'uint32', 'int32', 'uint64']),
+                   sidkind=rng.pick(['int64', 'int64', 'list', 'uint64', 'int32', 'uint32']))
         sids2 = rng.sample(range(ns), rng.randrange(1, min(ns, 6) + 1))
-        yield dict(p=PID, op='tfeatures', spec=spec, spike_ids=sids2)
+        yield dict(p=PID, op='tfeatures', spec=spec, spike_ids=sids2, sidkind=rng.pick(['int64', 'list', 'uint64', 'uint32']))
     # many spikes, few stored rows with large spike ids, requests in arbitrary order: the id lookups
     # (index in the row table) run in their sparse regime
     for i in range(4 if q else 60):
@@ -352,7 +388,8 @@ def gen(tier, rng):
         spec['template_feature_ind'] = [rng.sample(range(nt), tl) for _ in range(nt)]
         sids = rng.sample(keep, rng.randrange(1, min(len(keep), 6) + 1))
         yield dict(p=PID, op='features', spec=spec, spike_ids=sids, npcs_pow2=True,
-                   chans=rng.sample(range(nc), rng.randrange(1, nc + 1)), chkind=rng.pick(['list', 'array']))
+                   chans=rng.sample(range(nc), rng.randrange(1, nc + 1)), chkind=rng.pick(['list', 'array', 'uint32', 'int32', 'uint64']),
+                   sidkind=rng.pick(['int64', 'int64', 'list', 'uint64', 'int32', 'uint32']))
         yield dict(p=PID, op='tfeatures', spec=spec, spike_ids=rng.sample(keep2, rng.randrange(1, min(len(keep2), 6) + 1)))
     # PCA route
     for i in range(15 if q else 200):
